@@ -54,24 +54,24 @@ theorem translated_methods_are_the_models (g : GSelf) (hg : GWF g) :
 
 /-! ## non-vacuity: the hypotheses are met by concrete points, and by the state the translated `build` itself produces -/
 
-def pA : Point := { time := 5, meas := "a", tags := [("k", some "v"), ("j", none)], fields := [("f", some (.fin 1))] }
-def pB : Point := { time := 3, meas := "b", tags := [("k", some "w")], fields := [("f", none)] }
+def mirrorPA : Point := { time := 5, meas := "a", tags := [("k", some "v"), ("j", none)], fields := [("f", some (.fin 1))] }
+def mirrorPB : Point := { time := 3, meas := "b", tags := [("k", some "w")], fields := [("f", none)] }
 
-theorem witness_wf : ∀ p ∈ [pA, pB], WFPoint p := by
+theorem mirror_witness_wf : ∀ p ∈ [mirrorPA, mirrorPB], WFPoint p := by
   intro p hp
   simp only [List.mem_cons, List.mem_nil_iff, or_false] at hp
   rcases hp with rfl | rfl <;> exact ⟨by decide, by decide⟩
 
-example : ∃ g', IndexImpl.build (IndexImpl.__init__ true) [pA, pB] = .ok g' ∧ GWF g' ∧ g'._valid = true
-    ∧ Represents (Mirror.abs g') [pA, pB] :=
-  translated_build_represents _ _ witness_wf
+example : ∃ g', IndexImpl.build (IndexImpl.__init__ true) [mirrorPA, mirrorPB] = .ok g' ∧ GWF g' ∧ g'._valid = true
+    ∧ Represents (Mirror.abs g') [mirrorPA, mirrorPB] :=
+  translated_build_represents _ _ mirror_witness_wf
 
 /-- … and from that state, a removal that removes nothing with the identity renumbering meets the hypotheses of
     `translated_remove_update_represents` -/
-example : ∃ g' g1 g2, IndexImpl.build (IndexImpl.__init__ true) [pA, pB] = .ok g' ∧ IndexImpl.remove g' [] = .ok g1
-    ∧ IndexImpl.update g1 [] = .ok g2 ∧ Represents (Mirror.abs g2) [pA, pB] := by
-  obtain ⟨g', h1, h2, _, h4⟩ := translated_build_represents (IndexImpl.__init__ true) [pA, pB] witness_wf
-  obtain ⟨g1, g2, r1, r2, _, _, r5⟩ := translated_remove_update_represents g' [pA, pB] h2 h4 (fun _ => true) [] []
+example : ∃ g' g1 g2, IndexImpl.build (IndexImpl.__init__ true) [mirrorPA, mirrorPB] = .ok g' ∧ IndexImpl.remove g' [] = .ok g1
+    ∧ IndexImpl.update g1 [] = .ok g2 ∧ Represents (Mirror.abs g2) [mirrorPA, mirrorPB] := by
+  obtain ⟨g', h1, h2, _, h4⟩ := translated_build_represents (IndexImpl.__init__ true) [mirrorPA, mirrorPB] mirror_witness_wf
+  obtain ⟨g1, g2, r1, r2, _, _, r5⟩ := translated_remove_update_represents g' [mirrorPA, mirrorPB] h2 h4 (fun _ => true) [] []
     (by intro i _; rfl) (by intro i _ _; simp [cnt, List.filter_eq_self.mpr]) (by decide)
   exact ⟨g', g1, g2, h1, r1, r2, r5⟩
 
